@@ -1217,12 +1217,15 @@ func TestVerifC14(t *testing.T) {
 		text := "SELECT " + g.exprs(1+g.r.Intn(2), 1)
 		ok := false
 		var last string
-		for attempt := 0; attempt < 4 && !ok; attempt++ {
+		conclusive := 0 // attempts in which the clock reading and the original's evaluation were close together
+		for attempt := 0; attempt < 12 && !ok && conclusive < 4; attempt++ {
 			st := []*proto.Statement{{Sql: text}}
+			t0 := time.Now()
 			if err := Process(st, true, true); err != nil {
 				break
 			}
 			orig := c14Eval(mem, text)
+			took := time.Since(t0)
 			rewr := c14Eval(mem, st[0].Sql)
 			last = fmt.Sprintf("original %q = %s ; rewritten %q = %s", text, orig, st[0].Sql, rewr)
 			if orig == "ERROR" {
@@ -1233,14 +1236,22 @@ func TestVerifC14(t *testing.T) {
 			ok = orig == rewr
 			if !ok {
 				// the pinned literal has a precision of 1e-6 day (±43 ms) and the original reads its
-				// own clock a moment later: near a second boundary the two may differ - move away from it
+				// own clock a moment later: near a second boundary the two may differ - move away from it.
+				// On a busy machine "a moment" can be long: such an attempt says nothing.
+				if took < 150*time.Millisecond {
+					conclusive++
+				} else {
+					rep.Count("meaning:attempt-inconclusive-machine-too-slow")
+				}
 				rep.Count("meaning:retry")
 				time.Sleep(170 * time.Millisecond)
 			}
 		}
 		rep.Count("meaning:original-vs-rewritten")
-		if !ok {
+		if !ok && conclusive >= 4 {
 			rep.Fail("meaning-changed", "rewritten statement does not evaluate like the original at the pinned instant: "+last, map[string]interface{}{"sql": text})
+		} else if !ok {
+			rep.Count("meaning:abandoned-under-load")
 		}
 	}
 	// meaning A': a pinned random blob has the length SQLite's randomblob would have produced
